@@ -97,7 +97,7 @@ MANIFEST_TEXT = {
         engine="rapidcheck + deterministic scheduler",
         technique="schedule exploration with virtual time on the deterministic scheduler (sampled schedules with time jumps and I/O latencies + bounded-preemption enumeration on tiny programs); history invariants over the execution trace (submission returns, applied calls, backend fsync, thread activity) + deadlock/no-progress detection",
         level_text="Programs with flushes throughout and one or two application threads run under generated schedules in which the queue is often full and the 5 s send / 20 s flush timeouts fire in virtual time. A successful flush must be preceded by the application of every data call that had returned before it started and by a backend fsync after the last of them; close must leave every accepted call applied, the writer thread finished and a well-formed closed file; the scheduler aborts with a verdict on deadlock or when 3e6 steps do not finish the program.",
-        level_note="Trusted: vsched.cpp; the trace order of a serialised execution. Schedules are sampled; in addition every schedule with at most 2 (thorough: 3) preemptions of six tiny programs with flushes is enumerated (three-thread program: 1 / 2), without time jumps."),
+        level_note="Trusted: vsched.cpp; the trace order of a serialised execution. Schedules are sampled; in addition every schedule with at most 2 (thorough: 3) preemptions of five tiny two-thread programs with flushes is enumerated, without time jumps; for the three-thread program (two producers) the bound is 1 in the quick tier (complete) and 2 in the thorough tier, where the recorded run was stopped by its wall-clock share after 327 438 schedules (reported as complete: false in the evidence - a budget never decides a verdict)."),
     "C06": dict(
         engine="rapidcheck + deterministic scheduler",
         technique="schedule exploration on a deterministic scheduler with virtual time (interposed pthread/sleep/clock, queue, memcpy and I/O points): sampled schedules x generated programs (shrinking) + bounded-preemption enumeration of all schedules of tiny programs; differential against the synchronous writer; history invariants over the execution trace",
